@@ -129,7 +129,15 @@ class Term:
         return r
 
     def equals(self, o):
-        return (self.n * o.d) == (o.n * self.d)
+        if (self.n * o.d) == (o.n * self.d):
+            return True
+        # an inequality is a verdict only between fully interpreted terms: a part the abstraction could not interpret
+        # (opaque atom "<...>") on one side only means the comparison is undecided, not that the code is wrong
+        mine = {a for a in self.atoms() if a.startswith("<")}
+        theirs = {a for a in o.atoms() if a.startswith("<")}
+        if mine != theirs:
+            raise NotSymbolic(f"term has parts the abstraction does not interpret: {sorted(mine ^ theirs)[0][:120]}")
+        return False
 
     def is_const(self):
         return self.n.is_const() and self.d.is_const()
